@@ -33,6 +33,19 @@ def _exclusive(fn, a, b):
                 return True
             if k == 'if' and {r, rb} == {'then', 'else'}:
                 return True
+            # one of them sits in a branch that leaves the function (`return f(..)` / `return` later in that branch)
+            # before the other can run
+            for x, anc in ((a, anc_a), (b, anc_b)):
+                for q, rq in anc:
+                    if q is p:
+                        break
+                    if q.get('k') == 'ret':
+                        return True
+                    if q.get('k') == 'block' and P.diverges(q) and (q.get('k'), rq) != (None, None):
+                        # the branch block ends in return/panic: nothing after the common ancestor runs on this path
+                        par = fn.parent.get(id(q))
+                        if par and par[0] is not None and par[0].get('k') in ('match', 'if'):
+                            return True
             return False
     return False
 
@@ -384,11 +397,20 @@ def rule_attr_scanner(ctx):
         for n in consumed:
             guarded = False
             for pc in P.path_conds(fn, n):
-                if pc[0] == 'if' and pc[2]:
-                    t = ctx.pv.eval(fn, pc[1], senv, 0)
+                if pc[0] != 'if':
+                    continue
+                cc_ = P.canon_if(ctx.pv.eval(fn, pc[1], senv, 0), pc[2])
+                if cc_[2]:
+                    t = cc_[1]
                     for s in P.subterms(t):
                         if s[0] == 'op' and s[1] == '==' and any(x[0] == 'param' for x in s[2]):
                             guarded = True
+                        if s[0] == 'call' and any(x[0] == 'param' for x in s[2]):
+                            # a named predicate `is_ident_named(token, key)`: it must compare its arguments for equality
+                            for pf in ctx.pv.fn_by_path.get(s[1], []):
+                                pt = ctx.pv.eval(pf, pf.body, H.sym_env(pf), 0)
+                                if any(q[0] == 'op' and q[1] == '==' and any(x[0] == 'param' for x in q[2]) for q in P.subterms(pt)):
+                                    guarded = True
             if not guarded:
                 badn.append(n)
         inst = 'attributes::' + name
